@@ -256,7 +256,8 @@ var specTypes = pbt.Register(&pbt.Spec[Case]{
 		"non-comparable dynamic values, typed nil pointer, struct{}{}), str (\"\", blanks, brackets), ptr (nil), u8, padded (struct with padding, 96 bytes), stringer (named int with a " +
 		"String method, jagged input given as named slice types), error (interface with methods, nil), unit struct{} / zsnc struct{[0]func()} / zarr [0]int (zero-size; zsnc also not " +
 		"comparable)} x shapes 0..3 x 0..3 (thorough 0..5) + 5x2, 2x5, 33x2, 2x33, 70x1, 1x70 (thorough also 9x5, 5x9, 33x3, 3x33, 17x16, 130x2) x the canonical cases of C08.enum (constructors alone incl. New2DFilled with the " +
-		"ordinary value and with EVERY special value of the type, 10 jagged inputs; scripts set/row/span/fill from the last row/special/clone/keep on each constructor; thorough: all scripts). Values are compared " +
+		"ordinary value and with EVERY special value of the type, 10 jagged inputs; the two-array script with three kinds of second array; scripts set/row/span/fill from the last row/special/clone/keep " +
+		"on each constructor; thorough: all scripts and all four second arrays). Values are compared " +
 		"by bit pattern (floats) or identity (slices, maps, pointers), String by fmt.Sprint of each cell; for zero-size types only panics, lengths and String are observable; " + rule,
 	Enum: func(shard, shards int, tier string, yield func(Case) bool) {
 		for i, T := range typeOrder {
